@@ -137,6 +137,7 @@ hasperr:
 			// Hold write lock, so that write won't pass-through.
 			db.compWriteLocking = true
 		case <-db.closeC:
+			verifAt("x.eh.close")
 			if db.compWriteLocking {
 				// Close wants the write lock. Don't release it: a writer
 				// that waits for the lock could take it before Close and
